@@ -31,6 +31,7 @@ def run_target(I, relpath, qualname, args, kwargs=None, self_obj=None):
     f = Func(fn, m, c, None, qualname)
     prev = I.world.top_active
     I.world.top_active = (relpath, qualname)
+    I.world.inlined.add('%s::%s' % (relpath, qualname))     # every function a unit interprets belongs to its ledger closure
     try:
         try:
             a = list(args)
